@@ -25,6 +25,13 @@ func escCell(s string) string {
 	return strings.ReplaceAll(s, "\r", "<br>")
 }
 
+// oneLine: what a heading / link shows for a name (line breaks as blanks)
+func oneLine(s string) string {
+	s = strings.ReplaceAll(s, "\r\n", " ")
+	s = strings.ReplaceAll(s, "\n", " ")
+	return strings.ReplaceAll(s, "\r", " ")
+}
+
 // splitRow splits a rendered table line at the pipes that are not escaped; cells keep their
 // escaped form.
 func splitRow(line string) []string {
@@ -270,7 +277,7 @@ func checkProperty(net *a.Network, blocks []Block, kinds map[string]int, maxDept
 	}
 	var busNames, h2 []string
 	for _, b := range net.Buses() {
-		busNames = append(busNames, b.Name())
+		busNames = append(busNames, oneLine(b.Name()))
 	}
 	for _, s := range secs {
 		h2 = append(h2, s.title)
@@ -319,7 +326,7 @@ func checkProperty(net *a.Network, blocks []Block, kinds map[string]int, maxDept
 	collect := func(sigs []a.Signal) { collectAt(sigs, 0) }
 	for bi, bus := range net.Buses() {
 		sec := secs[bi]
-		if sec.title != bus.Name() {
+		if sec.title != oneLine(bus.Name()) {
 			add("sections-bus-order", "section %d is %q, bus %d is %q", bi, sec.title, bi, bus.Name())
 			continue
 		}
@@ -335,7 +342,7 @@ func checkProperty(net *a.Network, blocks []Block, kinds map[string]int, maxDept
 		nis := bus.NodeInterfaces()
 		var want, got []string
 		for _, ni := range nis {
-			want = append(want, ni.Node().Name())
+			want = append(want, oneLine(ni.Node().Name()))
 		}
 		for _, s := range nsecs {
 			got = append(got, s.title)
@@ -356,7 +363,7 @@ func checkProperty(net *a.Network, blocks []Block, kinds map[string]int, maxDept
 			msgs := nodeInt.SentMessages()
 			var wantM, gotM []string
 			for _, m := range msgs {
-				wantM = append(wantM, m.Name())
+				wantM = append(wantM, oneLine(m.Name()))
 			}
 			for _, s := range msecs {
 				gotM = append(gotM, s.title)
@@ -460,7 +467,7 @@ func checkProperty(net *a.Network, blocks []Block, kinds map[string]int, maxDept
 		case "Signal Enums":
 			var want, got []string
 			for e := range enums {
-				x := e.Name()
+				x := oneLine(e.Name())
 				for _, v := range e.Values() {
 					x += "/" + joinCells([]string{v.Name(), fmt.Sprint(v.Index()), orDash(v.Desc())})
 				}
